@@ -106,6 +106,15 @@ CHECKS = {
         "note": "Trusted: TLC; the script effects written in the spec; value universe of ints and strings for the histories.",
         "technique": "TLA+ state machine of the API, edge-covering history generation by TLC, replay into the real API",
     },
+    "C16": {
+        "text": ("TailCall.tla models the VM's frame re-use for self calls (next instruction RET, or POP; RET with the discard flag) against plain "
+                 "recursion for every shape of the code after the call and every depth: same value, constant frames exactly for tail shapes; the "
+                 "pre-repair machine is rejected. TengoSem (no frames) evaluates the tailcalls family at depths 0-12; the real VM runs it there "
+                 "and at depths up to 10^5 (10^6 thorough) with a frame probe against the closed form of the equivalent loop."),
+        "design_ref": "DESIGN.md 8/C16",
+        "note": "Trusted: TLC; closed forms for deep depths (validated against TengoSem at model depths in the same run); the probe hook.",
+        "technique": "TLA+ model of the frame discipline checked by TLC + reference semantics at small depths + deep real runs with frame probe",
+    },
     "C07": {
         "text": ("TLC checks RunContext.tla (PlusCal model of Compiled.RunContext + VM abort protocol) over all interleavings of "
                  "caller/runner/canceller for every program shape and length <= 8: safety (right return value, <=1 instruction after "
